@@ -32,7 +32,17 @@ class Ob:
     def full_key(self):
         return "%s#%s" % (self.rule, self.key)
 
+    @staticmethod
+    def _plain(x):
+        # observed / expected values are free-form: make them JSON (dict keys must be strings)
+        if isinstance(x, dict):
+            return {(k if isinstance(k, str) else " && ".join(map(str, k)) if isinstance(k, tuple) else str(k)): Ob._plain(v) for k, v in x.items()}
+        if isinstance(x, (list, tuple, set, frozenset)):
+            return [Ob._plain(v) for v in (sorted(x, key=str) if isinstance(x, (set, frozenset)) else x)]
+        return x if isinstance(x, (str, int, float, bool)) or x is None else str(x)
+
     def as_json(self):
+        self.observed, self.expected = Ob._plain(self.observed), Ob._plain(self.expected)
         d = {"rule": self.rule, "key": self.key, "status": self.status, "where": self.where}
         if self.msg:
             d["msg"] = self.msg
